@@ -300,7 +300,8 @@ def chao1(counts):
     hatSchao1 = Sobs + f1^2/(2 f2)
     """
     
-    f1 = counts[0]
+    # float: f1*(f1-1) and f1**2 overflow narrow integer dtypes (e.g. int32 count arrays)
+    f1 = float(counts[0])
     Sobs = np.sum(counts)
 
     if (len(counts) == 1) or (counts[1] == 0):
@@ -330,7 +331,8 @@ def chao2(counts, m):
     m: number of replicates
     """
   
-    q1 = counts[0]
+    # float: q1**2 overflows narrow integer dtypes (e.g. int32 count arrays)
+    q1 = float(counts[0])
     Sobs = np.sum(counts)
 
     if (len(counts) == 1) or (counts[1] == 0):
